@@ -4,3 +4,4 @@ from checks import e3check
 QUICK = ['e2_h_debug_U2_R1', 'e2_h_cv_debug_U2_R1', 'dbg_locker_mudebug_R3']
 THOROUGH = ['e2_h_debug_U3_R1', 'dbg_locker_locker_mudebug_R3', 'dbg_locker_rlocker_mudebug_R3', 'dbg_cvwaiter_signaller_cvdebug_R3']
 scenarios, jobs, confirm, info = e3check.make('C16', QUICK, THOROUGH, 'Concurrency half. E2 harness h_debug: nsync_mu_debug_state(_and_waiters) under arbitrary interference must change no lock bit and release the spinlock without disturbing other bits (guarantee check on its release store). E3: lockers + a debug caller with the C01/C02 oracles. Formatting is a no-op in these builds (emit_print excluded); the buffer half is not covered by a solver check (see DESIGN.md: CBMC does not get through the varargs formatter).', ['emit_mu_state', 'emit_cv_state', 'nsync_mu_debug_state', 'nsync_mu_debug_state_and_waiters', 'nsync_cv_debug_state_and_waiters'], ['buffer bounds / truncation marker for n in 0..80 (not decided by a solver check)'])
+WORKERS = 5     # each query needs 2-10 GB (cbmc + kissat): bounded parallelism keeps the machine out of swap / the OOM killer
